@@ -25,6 +25,11 @@ SEARCHES = {
     'C15': ['c15-search'],
     'C17': ['c17-search', 'c01-search'],
     'C02': ['c02-search'],
+    'C05': ['c05-search'],
+    'C09': ['c09-search'],
+    'C16': ['c16-search', 'c12-search'],
+    'C19': ['c19-search', 'c05-search'],
+    'C20': ['c20-strings'],
     'C14': ['c14-search'],
     'C18': ['c18-search'],
 }
@@ -32,7 +37,6 @@ SEARCHES = {
 
 # searches that only make sense as exploration (no failing clause maps to them)
 EXTRA_THOROUGH = {
-    'C20': ['c20-strings'],
 }
 
 
@@ -79,6 +83,7 @@ def run_replay(repo, argv, timeout=300, known=''):
     if known:
         env['PEPPI_KNOWN'] = known
     env.setdefault('PEPPI_FIXTURES', os.path.join(repo, 'tests', 'data'))
+    env.setdefault('PEPPI_SPEC', os.path.join(VERIF, 'spec'))
     p = subprocess.run([exe] + argv, stdout=subprocess.PIPE, stderr=subprocess.STDOUT, text=True, timeout=timeout, env=env)
     return p.returncode, p.stdout
 
